@@ -313,4 +313,20 @@ CLAIMS = {
         "note": "no unbounded claim; modules with hidden state of their own are outside the statement; subprocess execution "
                 "is not covered (C31).",
     },
+    "C32": {
+        "category": "other",
+        "text": "Bounded stand-in (not a proof): the real TestCaseExecutor with a 0.25 s timeout and the assertion-trace observer "
+                "attached runs 5 non-terminating or over-long test cases on an instrumented module (busy loop, sleeping loop, a "
+                "long uninstrumented sleep followed by instrumented code, an object whose __len__ polls while the observer has "
+                "tracing switched off, a late exception), waits 0 / 0.1 / 1.1 s (thorough: six delays) and then runs one of two "
+                "terminating test cases: the timeout must be reported within 2 x timeout + 1 s with an empty result and the "
+                "terminating test case's result (exceptions, covered lines, predicates with distances, code objects) must equal "
+                "its result on a quiet executor.",
+        "technique": "bounded scenario check (this family is silent on thread schedules: the sequential contracts planned in "
+                     "DESIGN.md - fresh trace object per execution, check() before every recorder - are not built; schedules are "
+                     "sampled by varying the delay, not enumerated)",
+        "note": "no unbounded claim and no exploration of interleavings; timing based, with generous slack (1 s) so that machine "
+                "load does not raise alarms; a straggler that outlives the 3 s the harness waits between scenarios may leak into "
+                "the next scenario's reference comparison (it would show as a violation, never mask one).",
+    },
 }
